@@ -8,6 +8,7 @@ from vf.engine import Violation, InvalidCase
 from vf.fixtures import check, wone_of
 
 PROPERTY = "C05"
+CASE_TIMEOUT_S = 15      # a case normally takes milliseconds; a scheduler that loops for ever is reported after 3 x 15 s
 BUDGET = {"quick": 8000, "thorough": 24000}
 RULE = ("2-6 initial systems with priorities in {0,1,2} (ties), 1-3 scripts (actor, timestep, actions) where an action "
         "(always on, or - in a third of the cases - with sparse start/frequency windows, so that in some timesteps nobody else is due) removes self / an earlier / a later / an equal-priority system or registers a fresh system of higher, equal or "
@@ -15,7 +16,8 @@ RULE = ("2-6 initial systems with priorities in {0,1,2} (ties), 1-3 scripts (act
         "the harness' own event trace (no double run; every system registered for the whole timestep runs once, in "
         "priority/registration order; removed-before-turn never runs; mid-timestep registrations run 0 or 1 times; "
         "unscripted timesteps follow C01 order exactly). Non-trivial: the acting system is not last in the order and "
-        "performs a removal or a higher/equal-priority insertion. Distinct = digest of the case.")
+        "performs a removal or a higher/equal-priority insertion. Distinct = digest of the case."
+        " Added in rounds 19-24: the very object removed in THIS timestep may be registered again (whether it then runs once is left open, twice is a violation); windows may have a finite last timestep.")
 EXHAUSTIVE_DOMAIN = ("queues of length 2..5 (quick 2..4) over priorities {0,1,2}^n x every actor position x one action "
                      "(remove each target incl. self, or add at priority 0..3), 3 timesteps, action at t=1")
 ASSUMPTIONS = ["mid-timestep registrations are new objects (fresh or re-used ids) or the very object that was removed in an earlier timestep",
